@@ -447,7 +447,7 @@ func runC07Integrations(c *Ctx, rng *Rng) {
 		default:
 			xid = fmt.Sprintf("%d", r.U64())
 		}
-		kind := []string{"grpc", "grpc-lower", "gin", "gin-lower", "dubbo-go", "dubbo-java", "dubbo-go-lower", "dubbo-java-lower"}[r.Intn(8)]
+		kind := []string{"grpc", "grpc-lower", "gin", "gin-lower", "dubbo-go", "dubbo-java", "dubbo-go-lower", "dubbo-java-lower", "grpc-relay", "grpc-relay-lower"}[r.Intn(10)]
 		coord.ResetLog()
 		got := ""
 		role := ""
@@ -466,9 +466,19 @@ func runC07Integrations(c *Ctx, rng *Rng) {
 		tm.SetXID(caller, xid)
 		p := safeCall(func() {
 			switch kind {
-			case "grpc", "grpc-lower":
+			case "grpc", "grpc-lower", "grpc-relay", "grpc-relay-lower":
 				var outMD metadata.MD
-				sgrpc.ClientTransactionInterceptor(caller, "/svc/m", nil, nil, nil,
+				callerCtx := caller
+				if strings.HasPrefix(kind, "grpc-relay") {
+					// a relay: it was called inside another transaction, forwards the metadata it received on its
+					// own calls (trace headers ...) and has meanwhile begun a transaction of its own
+					key := constant.XidKey
+					if kind == "grpc-relay-lower" {
+						key = constant.XidKeyLowercase
+					}
+					callerCtx = metadata.NewOutgoingContext(caller, metadata.Pairs(key, "10.9.9.9:8091:stale"+xid, "x-trace", "t1"))
+				}
+				sgrpc.ClientTransactionInterceptor(callerCtx, "/svc/m", nil, nil, nil,
 					func(ctx context.Context, method string, req, reply interface{}, cc *grpc.ClientConn, opts ...grpc.CallOption) error {
 						outMD, _ = metadata.FromOutgoingContext(ctx)
 						return nil
